@@ -1,1 +1,210 @@
-/-! STUB — property C16 is not built yet. -/
+import Martian.Lemmas.Har
+/-!
+C16 — HAR entries faithfully describe the exchange and survive a JSON round trip.
+Only property theorems and non-vacuity examples live here.
+Quantifiers: every message, every capture option, every body byte string; the trusted parsers
+(media type, form/multipart parameters, gzip/flate, JSON string escaping) are parameters.
+-/
+namespace Martian.Props.C16
+open Martian Martian.Go Martian.MessageView Martian.Har
+
+/-- Request entry: method, URL, HTTP version and body size are the message's, and the header list
+is exactly (a permutation of) the header map with Host / Content-Length / Transfer-Encoding put in. -/
+theorem request_fields_equal (pp : Bytes → Bytes → Option (List Param)) (mt : Bytes) (wb : Bool)
+    (m : Msg) (r : Request) (h : newRequest pp mt wb m = some r) :
+    r.method = m.method ∧ r.url = m.url ∧ r.httpVersion = protoBytes m.major m.minor ∧
+    r.bodySize = m.cl ∧ ∀ kv, kv ∈ r.headers ↔ kv ∈ headerMap m := by
+  unfold newRequest at h
+  cases hp : postData pp mt wb m with
+  | none => simp [hp] at h
+  | some pd =>
+    simp [hp] at h
+    subst h
+    simp [harHeaders, mem_sortKV]
+
+/-- Response entry: status, HTTP version, body size, redirect URL (Location of a 3xx) and headers. -/
+theorem response_fields_equal (infl : Bytes → Bytes → Option Bytes) (wb : Bool) (m : Msg) (r : Response)
+    (h : newResponse infl wb m = some r) :
+    r.status = m.code ∧ r.httpVersion = protoBytes m.major m.minor ∧ r.bodySize = m.cl ∧
+    r.redirectURL = (if 300 ≤ m.code && m.code < 400 then headerGet m.hdr locationKey else []) ∧
+    r.content.mime = headerGet m.hdr ctKey ∧
+    ∀ kv, kv ∈ r.headers ↔ kv ∈ headerMap m := by
+  unfold newResponse at h
+  simp only [Option.map_eq_some_iff] at h
+  obtain ⟨c, hc, rfl⟩ := h
+  refine ⟨rfl, rfl, rfl, rfl, ?_, by simp [harHeaders, mem_sortKV]⟩
+  split at hc
+  · simp only [Option.map_eq_some_iff] at hc
+    obtain ⟨b, _, rfl⟩ := hc
+    rfl
+  · simp at hc; subst hc; rfl
+
+/-- The header list includes Host (requests), Content-Length (when positive) and every
+Transfer-Encoding value, next to every ordinary header field. -/
+theorem header_list_includes_host_cl_te (m : Msg) :
+    (m.isReq = true → m.host ≠ [] → (hostKey, m.host) ∈ headerMap m) ∧
+    (0 < m.cl → (clKey, itoa m.cl) ∈ headerMap m) ∧
+    (∀ t ∈ m.te, (teKey, t) ∈ headerMap m) ∧
+    (∀ kv ∈ m.hdr, kv.1 ≠ hostKey → kv.1 ≠ clKey → kv.1 ≠ teKey → kv ∈ headerMap m) := by
+  refine ⟨?_, ?_, ?_, ?_⟩
+  · intro hr hh
+    have : m.host.isEmpty = false := by cases hm : m.host <;> simp_all
+    simp only [headerMap, hr, this]
+    apply mem_setKey_of_mem _ _ _ _ _ hostKey_ne_teKey
+    apply mem_setKey_of_mem _ _ _ _ _ hostKey_ne_clKey
+    exact (mem_setKey_some _ _ _ _).2 (Or.inr ⟨rfl, by simp⟩)
+  · intro hc
+    simp only [headerMap, hc]
+    apply mem_setKey_of_mem _ _ _ _ _ clKey_ne_teKey
+    exact (mem_setKey_some _ _ _ _).2 (Or.inr ⟨rfl, by simp⟩)
+  · intro t ht
+    have : m.te.isEmpty = false := by cases hm : m.te <;> simp_all
+    simp only [headerMap, this]
+    exact (mem_setKey_some _ _ _ _).2 (Or.inr ⟨rfl, ht⟩)
+  · intro kv hkv h1 h2 h3
+    simp only [headerMap]
+    exact mem_setKey_of_mem _ _ _ _ (mem_setKey_of_mem _ _ _ _ (mem_setKey_of_mem _ _ _ _ hkv h1) h2) h3
+
+/-- Post data is the de-framed request body (never the chunk framing): plain bodies go to `text`
+unchanged, form and multipart bodies are parsed from those same bytes. -/
+theorem postdata_is_deframed_body (pp : Bytes → Bytes → Option (List Param)) (mt : Bytes) (m : Msg)
+    (pd : PostData) (h : postData pp mt true m = some (some pd)) :
+    pd.mime = mt ∧
+    (mt ≠ multipartTok → mt ≠ formTok → pd.text = m.body.getD [] ∧ pd.params = []) ∧
+    ((mt = multipartTok ∨ mt = formTok) → pp mt (m.body.getD []) = some pd.params ∧ pd.text = []) := by
+  unfold postData at h
+  split at h
+  · simp at h
+  · simp only [Bool.not_true, Bool.false_eq_true, if_false, snapshotMsg_id] at h
+    split at h
+    · rename_i hmt
+      simp only [Option.map_eq_some_iff] at h
+      obtain ⟨ps, hps, hpd⟩ := h
+      simp at hpd; subst hpd
+      refine ⟨rfl, ?_, fun _ => ⟨hps, rfl⟩⟩
+      intro h1 h2
+      simp [h1, h2] at hmt
+    · rename_i hmt
+      simp at h; subst h
+      refine ⟨rfl, fun _ _ => ⟨rfl, rfl⟩, ?_⟩
+      intro h1
+      rcases h1 with h1 | h1 <;> simp [h1] at hmt
+
+/-- Regression witness for F16: the raw body section of the snapshot of a chunked message is the
+chunk framing, which is never the body itself. -/
+theorem chunk_framing_is_not_body (m : Msg) (b : Bytes) (hb : m.body = some b)
+    (hch : isChunked m.te = true) :
+    bodyReader (snapshot noOpts m) = chunkedWrite b ∧ chunkedWrite b ≠ b := by
+  have hc : captures noOpts m = true := by simp [captures, noOpts, hb]
+  refine ⟨by simp [bodyReader_snapshot noOpts m hc, framedBody, hch, hb], ?_⟩
+  intro h
+  have := congrArg List.length h
+  unfold chunkedWrite at this
+  split at this <;> simp [crlf] at this
+  · rename_i he
+    have : b = [] := by simpa using he
+    subst this; simp at *
+  · omega
+
+/-- Response content is the fully decoded body with its true size: for every framing the text is
+the message body (de-chunked), passed through the trusted gzip/flate when the message announces
+one of them (and is not a 204/206), and `size` is the length of exactly that text. -/
+theorem content_is_decoded_body_with_true_size (infl : Bytes → Bytes → Option Bytes) (m : Msg)
+    (b : Bytes) (r : Response) (hb : m.body = some b) (h : newResponse infl true m = some r) :
+    r.content.size = r.content.text.length ∧
+    (if compressOf m == gzipTok || compressOf m == deflateTok then infl (compressOf m) b = some r.content.text
+     else r.content.text = b) := by
+  have hc : captures noOpts m = true := by simp [captures, noOpts, hb]
+  unfold newResponse at h
+  simp only [if_true, decodeBody_snapshot infl noOpts m b hc hb, Option.map_eq_some_iff] at h
+  obtain ⟨c, ⟨t, ht, rfl⟩, rfl⟩ := h
+  refine ⟨rfl, ?_⟩
+  split
+  · rename_i hz; simpa [hz] using ht
+  · rename_i hz; simp [hz] at ht; exact ht.symm
+
+/-- Body capture follows the configured content-type options: prefix match on the lower-cased
+Content-Type, opt-in lists capture exactly the matching types, opt-out lists exactly the others;
+without capture nothing of the body is in the entry. -/
+theorem capture_follows_options (ct : Bytes) (cts : List Bytes) :
+    Capture.all.decide ct = true ∧ Capture.nothing.decide ct = false ∧
+    ((Capture.optIn cts).decide ct = true ↔ ∃ p ∈ cts, (toLower p).isPrefixOf (toLower ct) = true) ∧
+    ((Capture.optOut cts).decide ct = true ↔ ¬ ∃ p ∈ cts, (toLower p).isPrefixOf (toLower ct) = true) := by
+  simp [Capture.decide, hasPrefix]
+
+theorem uncaptured_has_no_body (pp : Bytes → Bytes → Option (List Param)) (infl : Bytes → Bytes → Option Bytes)
+    (mt : Bytes) (c : Capture) (m : Msg) (hc : c.decide (headerGet m.hdr ctKey) = false) :
+    (∀ r pd, logRequest pp mt c m = some r → r.postData = some pd → pd.text = [] ∧ pd.params = []) ∧
+    (∀ r, logResponse infl c m = some r → r.content.text = [] ∧ r.content.size = 0) := by
+  constructor
+  · intro r pd h hpd
+    simp only [logRequest, hc, newRequest, postData] at h
+    split at h
+    · simp at h; subst h; simp at hpd
+    · simp at h; subst h; simp at hpd; subst hpd; simp
+  · intro r h
+    simp only [logResponse, hc, newResponse] at h
+    simp at h; subst h; simp
+
+/-- JSON round trip of post data, for ALL body byte strings: valid UTF-8 goes as text, anything
+else as base64, and both read back exactly. Hypotheses: `encoding/json` reads back the valid-UTF-8
+strings it wrote; media type and parameters are valid UTF-8 (see the open finding F16b for
+parameters that are not). -/
+theorem postdata_json_roundtrip (enc : Bytes → Bytes) (dec : Bytes → Option Bytes)
+    (hj : ∀ s, utf8Valid s = true → dec (enc s) = some s) (p : PostData)
+    (hm : utf8Valid p.mime = true)
+    (hp : ∀ q ∈ p.params, utf8Valid q.name = true ∧ utf8Valid q.value = true ∧
+      utf8Valid q.fileName = true ∧ utf8Valid q.contentType = true) :
+    unmarshalPD dec (marshalPD enc p) = some p := by
+  have hparams : (p.params.map (marshalParam enc)).mapM (unmarshalParam dec) = some p.params := by
+    have : ∀ l : List Param, (∀ q ∈ l, utf8Valid q.name = true ∧ utf8Valid q.value = true ∧
+        utf8Valid q.fileName = true ∧ utf8Valid q.contentType = true) →
+        (l.map (marshalParam enc)).mapM (unmarshalParam dec) = some l := by
+      intro l
+      induction l with
+      | nil => intro _; rfl
+      | cons q qs ih =>
+        intro h
+        obtain ⟨h1, h2, h3, h4⟩ := h q (by simp)
+        simp [List.mapM_cons, unmarshalParam, marshalParam, hj _ h1, hj _ h2, hj _ h3, hj _ h4,
+          ih (fun x hx => h x (by simp [hx]))]
+    exact this _ hp
+  have hb64 := base64Tok_valid
+  unfold marshalPD
+  split
+  · rename_i hv
+    simp [unmarshalPD, hj _ hm, hj _ hv, hparams]
+    intro h; rw [base64Tok_eq] at h; simp at h
+  · have ha := utf8Valid_of_ascii _ (b64Encode_ascii p.text)
+    simp [unmarshalPD, hj _ hm, hj _ ha, hj _ hb64, hparams, b64_roundtrip]
+
+/-- JSON round trip of response content as the logger produces it (always base64): exact for
+ALL byte strings. -/
+theorem content_json_roundtrip (enc : Bytes → Bytes) (dec : Bytes → Option Bytes)
+    (hj : ∀ s, utf8Valid s = true → dec (enc s) = some s) (c : Content)
+    (hm : utf8Valid c.mime = true) (hb : c.base64 = true) :
+    unmarshalContent dec (marshalContent enc c) = some c := by
+  have hb64 := base64Tok_valid
+  have ha := utf8Valid_of_ascii _ (b64Encode_ascii c.text)
+  cases c
+  simp_all [marshalContent, unmarshalContent, b64_roundtrip]
+
+/-- …and every response the model logs has base64 content (so the previous theorem applies). -/
+theorem logged_content_is_base64 (infl : Bytes → Bytes → Option Bytes) (wb : Bool) (m : Msg) (r : Response)
+    (h : newResponse infl wb m = some r) : r.content.base64 = true := by
+  unfold newResponse at h
+  simp only [Option.map_eq_some_iff] at h
+  obtain ⟨c, hc, rfl⟩ := h
+  split at hc
+  · simp only [Option.map_eq_some_iff] at hc
+    obtain ⟨b, _, rfl⟩ := hc
+    rfl
+  · simp at hc; subst hc; rfl
+
+-- non-vacuity: the JSON hypotheses are satisfiable (identity coding) and both branches occur
+example : ∃ (enc : Bytes → Bytes) (dec : Bytes → Option Bytes), ∀ s, utf8Valid s = true → dec (enc s) = some s :=
+  ⟨id, some, fun _ _ => rfl⟩
+example : utf8Valid (strBytes "abc") = true ∧ utf8Valid [0xff, 0xfe] = false := by decide
+example : b64Encode (strBytes "Man") = strBytes "TWFu" ∧ b64Encode (strBytes "Ma") = strBytes "TWE=" := by decide
+
+end Martian.Props.C16
